@@ -281,12 +281,74 @@ Section Main2.
     (if tp then X else Err EC_UNFIT) <> Err EC_UNFIT -> (if tp then X else Err EC_UNFIT) = X.
   Proof. destruct tp; [reflexivity|]. intros H. now destruct H. Qed.
 
-  Lemma spec_v2_eq v sh o : spec_v2 v sh o = rewrap (fst (unwrap sh)) o (spec_core2 v (snd (unwrap sh))).
+  (* [a_c02] the body of spec_v2 with the recursive calls folded: spec_v2_eq goes through it so that its proof term
+     stays small (the former proof, by case analysis under the unfolded mutual fixpoint, made every
+     `Print Assumptions` of a theorem that depends on it take ~25 s) *)
+  Definition spec_body2 (v : value) (core : shape) : outcome dval :=
+    match core with
+    | ShIgn => Ok DIgn
+    | _ =>
+      match v with
+      | VScalar _ raw => spec_scalar core raw
+      | VArray items =>
+          match core with
+          | ShSeq s => omap DSeq (spec_items2 items s)
+          | ShTup ss => omap DSeq (spec_tuple2 items ss)
+          | _ =>
+            match wmode_core core with
+            | Some m =>
+                match items with
+                | VNil => finish m (acc0 m)
+                | VCons _ _ =>
+                    if tp then
+                      do a <- rem_entry (arr_into (spec_items2 items) (spec_tuple2 items)) m (acc0 m);
+                      finish m a
+                    else Err EC_UNFIT
+                end
+            | None => Err EC_UNFIT
+            end
+          end
+      | VObject fs tl =>
+          match wmode_core core with
+          | Some m =>
+              do a <- spec_fields2 fs m (acc0 m);
+              do a' <- match tl with
+                       | VNil => Ok a
+                       | VCons _ _ =>
+                           if tp then rem_entry (arr_into (spec_items2 tl) (spec_tuple2 tl)) m a
+                           else Err EC_UNFIT
+                       end;
+              finish m a'
+          | None => Err EC_UNFIT
+          end
+      | VHeader name v' =>
+          match core with
+          | ShSeq s =>
+              if tp then do x <- hname s name; do y <- spec_v2 v' s None; Ok (DSeq [x; y])
+              else Err EC_UNFIT
+          | ShTup (s1 :: s2 :: rest) =>
+              if tp then
+                do x <- hname s1 name; do y <- spec_v2 v' s2 None;
+                match rest with [] => Ok (DSeq [x; y]) | _ :: _ => Err EC_DE end
+              else Err EC_UNFIT
+          | _ => hname_core core name
+          end
+      | VArrayKv _ _ => Err EC_UNFIT
+      end
+    end.
+
+  Lemma spec_v2_unfold v sh o :
+    spec_v2 v sh o = let (w, core) := unwrap sh in rewrap w o (spec_body2 v core).
+  Proof. destruct v; reflexivity. Qed.
+
+  Lemma spec_body2_core v c : spec_body2 v c = spec_core2 v c.
   Proof.
-    destruct v as [k s | fs tl | items | items kvs | name v']; cbn [TextDeSpec2.spec_v2]; destruct (unwrap sh) as [w c];
-      cbn [fst snd]; f_equal; unfold spec_core2; try reflexivity.
-    - destruct c; try reflexivity; (destruct items; [reflexivity|]); unfold tail_step; destruct tp; reflexivity.
+    destruct v as [k s | fs tl | items | items kvs | name v']; unfold spec_body2, spec_core2; try reflexivity.
+    destruct c; try reflexivity; (destruct items; [reflexivity|]); unfold tail_step; destruct tp; reflexivity.
   Qed.
+
+  Lemma spec_v2_eq v sh o : spec_v2 v sh o = rewrap (fst (unwrap sh)) o (spec_core2 v (snd (unwrap sh))).
+  Proof. rewrite spec_v2_unfold. destruct (unwrap sh) as [w c]. cbn [fst snd]. now rewrite spec_body2_core. Qed.
 
   Definition fval (f : TextDoc.field) (sh' : shape) : outcome dval :=
     match f with
